@@ -18,7 +18,8 @@ EXT_TAGS = ["ref", "gallery", "math", "source", "timeline", "imagemap", "poem", 
 ATTRS = ["", ' style="display:inline"', ' style="display:block"', ' class="x"', ' name="n1"', " name=n1", ' style="',
          " =", ' a="b" c=\'d\' e=f', ' style="color:red;display: Block"', " lang=python", " enclose=none", ' from="1" to="3"',
          ' from="A" to="B" index="I"', " colspan=2", ' rowspan="x"', " style=x:y;;:", ' group="g"', " /", ' x="&#99999999999;"',
-         ' style="width:1e999px"', " 0=1", ' align="right"', " width=100%"]
+         ' style="width:1e999px"', " 0=1", ' align="right"', " width=100%",
+         ' title="\x7fUNIQ-ref-7-fedcba9876543210-QINU\x7f"', " class=\x7fUNIQ-nowiki-0-0123456789abcdef-QINU\x7f", " id='\x7fUNIQ-ref-1-0123456789abcdef-QINU\x7f'"]
 ENTITIES = ["&amp;", "&lt;", "&nbsp;", "&bogus;", "&;", "&#65;", "&#x41;", "&#X41;", "&#0;", "&#x0;", "&#-1;", "&#x110000;",
             "&#1114112;", "&#99999999999;", "&#xFFFFFFFFF;", "&#xD800;", "&#55296;", "&#x;", "&#;", "&#x1F600;", "&#12345678;",
             "&#9999999999999999999999999999;", "&#x-1;", "&# 1;", "&#1_0;", "&#x1_0;", "&#٣;", "&#+1;", "&#xg;", "&#10;", "&#13;",
@@ -30,7 +31,8 @@ MARKUP = ["{|", "|}", "|-", "|+", "||", "!!", "|", "!", "[[", "]]", "[", "]", "'
           "http://x.org/a?b=c&d", "https://x.org", "[http://x.org]", "[http://x.org label]", "[https://x.org/''a'' b]",
           "mailto:a@b.org", "[mailto:a@b.org m]", "irc://x.org/c", "news:a.b", "ftp://x.org/f", "[//x.org/p rel]", "[ftp://x y]",
           "http://", "[http://", "[[http://x.org]]", "[[http://x.org|l]]", "ISBN 3-16-148410-0", "RFC 123",
-          "\x7fUNIQ-ref-0-0123456789abcdef-QINU\x7f", "\x7fUNIQ-", "-QINU\x7f", "", "\x7f"]
+          "\x7fUNIQ-ref-0-0123456789abcdef-QINU\x7f", "\x7fUNIQ-", "-QINU\x7f", "", "\x7f",
+          "\x7fUNIQ-ref-7-fedcba9876543210-QINU\x7f", "\x7fUNIQ-nowiki-1-0123456789abcdef-QINU\x7f", "\x7fUNIQ-nowiki-0-a-QINU\x7f"]
 LINKS = ["[[A]]", "[[A|b]]", "[[A|]]", "[[|b]]", "[[:A]]", "[[/sub]]", "[[/sub/]]", "[[../]]", "[[A#s|b]]", "[[#s]]",
          "[[Bild:x.jpg]]", "[[Image:x.png|thumb|100px|cap]]", "[[File:x.svg|thumb|left|200x100px|alt=a|link=B|''cap'' [[C]]]]",
          "[[Image:x.png|frame|right|upright=1.5|x]]", "[[File:x.png|border|frameless|upright|center|none|1e5px|xpx|100xpx]]",
@@ -367,6 +369,142 @@ def longdigit_family(tier):
     return out
 
 
+# ---- strip markers: uniq.Uniquifier replaces every extension tag by "\x7fUNIQ-<tag>-<n>-<16 hex of the process>-QINU\x7f" and puts the
+# tags back later (tokenizer: text of every HTML-ish tag; expander: result of every expansion; ParseUniq: t_uniq tokens).  The marker
+# uses the DEL control character, which is part of the input alphabet: text pasted from rendered output, or forged, contains markers that
+# are NOT in the table of the current parse (unknown), that ARE in it (the harness fixes the per-process random string to UNIQ_RAND, so a
+# forged marker with a small counter names a real tag of the same text - another one, or the very tag it sits in), or that only look like
+# one.  The family puts every marker variant at every position class.
+UNIQ_RAND = "0123456789abcdef"
+
+
+def uniq_marker(name="ref", n="7", rand="fedcba9876543210"):
+    return "\x7fUNIQ-%s-%s-%s-QINU\x7f" % (name, n, rand)
+
+
+def uniq_markers():
+    """(description, marker text)"""
+    out = []
+    # well-formed, not in the table: foreign random string / counter beyond the table, for every kind of tag name
+    for nm in ("ref", "nowiki", "math", "gallery", "pre", "source", "imagemap", "timeline", "poem", "pages", "zz9", "0"):
+        out.append(("unknown:" + nm, uniq_marker(nm)))
+    for n in ("0", "00", "99999999999999999999"):
+        out.append(("unknown-counter:" + n, uniq_marker(n=n)))
+    for rd in ("a", "deadbeef", "0" * 40):
+        out.append(("unknown-rand:" + rd[:8], uniq_marker(rand=rd)))
+    # the process's own random string: counter inside the table (names a real tag when the text has one) or beyond it
+    for nm, n in (("ref", "0"), ("nowiki", "0"), ("ref", "1"), ("nowiki", "1"), ("math", "0"), ("gallery", "0"), ("poem", "0"), ("pages", "0"),
+                  ("ref", "2"), ("ref", "7"), ("ref", "4000")):
+        out.append(("own-rand:%s-%s" % (nm, n), uniq_marker(nm, n, UNIQ_RAND)))
+    # ill-formed: right shape for one of the three recognisers only (Python \d and the scanner's [0-9] differ; case), truncated, nested
+    out.append(("illformed:unicode-digit-counter", uniq_marker(n="٣")))
+    out.append(("illformed:upper-hex", uniq_marker(rand="ABCDEF0123")))
+    out.append(("illformed:upper-name", uniq_marker("REF")))
+    out.append(("illformed:empty-name", uniq_marker("")))
+    out.append(("illformed:no-counter", "\x7fUNIQ-ref--fedcba-QINU\x7f"))
+    m = uniq_marker()
+    out.append(("truncated:head", m[:20]))
+    out.append(("truncated:no-trailing-del", m[:-1]))
+    out.append(("truncated:no-leading-del", m[1:]))
+    out.append(("truncated:tail", m[-6:]))
+    out.append(("truncated:prefix-only", "\x7fUNIQ-"))
+    out.append(("truncated:del-only", "\x7f"))
+    out.append(("nested:in-name", "\x7fUNIQ-" + m + "-7-fedcba-QINU\x7f"))
+    out.append(("nested:in-rand", "\x7fUNIQ-ref-7-" + m + "-QINU\x7f"))
+    out.append(("nested:adjacent", m + m))
+    out.append(("nested:shared-del", m + "UNIQ-ref-8-fedcba9876543210-QINU\x7f"))
+    out.append(("nested:own-in-unknown", "\x7fUNIQ-ref-7-" + uniq_marker("ref", "0", UNIQ_RAND) + "-QINU\x7f"))
+    out.append(("nested:marker-around-tag", "\x7fUNIQ-ref-7-<nowiki>fedcba</nowiki>-QINU\x7f"))
+    return out
+
+
+# position classes; %(m)s = the marker
+UNIQ_CONTEXTS = [
+    ("text", "before %(m)s after"), ("text-alone", "%(m)s"), ("text-glued", "a%(m)sb%(m)s"), ("heading", "== %(m)s ==\nx"), ("list", "* %(m)s\n# x %(m)s\n"),
+    ("definition", "; %(m)s : %(m)s\n"), ("pre-line", " %(m)s\n"), ("hrule", "----%(m)s\n"), ("comment", "a <!-- %(m)s --> b"), ("entity", "&%(m)s; &#%(m)s;"),
+    ("table-cell", "{|\n|-\n| %(m)s || %(m)s\n! %(m)s\n|}"), ("table-attr", "{| title=%(m)s class=\"%(m)s\"\n|-\n| c\n|}"), ("row-attr", "{|\n|- title=\"%(m)s\"\n| c\n|}"),
+    ("cell-attr", "{|\n|-\n| title=\"%(m)s\" | c\n! id=%(m)s | h\n|}"), ("caption", "{|\n|+ %(m)s\n|-\n| c\n|}"), ("caption-attr", "{|\n|+ title='%(m)s' | cap\n|-\n| c\n|}"),
+    ("html-attr-dq", '<span title="%(m)s">x</span>'), ("html-attr-sq", "<span title='%(m)s'>x</span>"), ("html-attr-bare", "<div class=%(m)s>y</div>"),
+    ("html-attr-selfclosing", 'a<br clear="%(m)s"/>b<hr title=%(m)s>'), ("html-attr-style", '<div style="color:%(m)s;width:%(m)s">y</div>'),
+    ("html-attr-name", "<span %(m)s=1>x</span>"), ("html-attr-valueless", "<span %(m)s>x</span>"), ("html-tag-name", "<%(m)s>x</%(m)s>"), ("html-tag-name-glued", "<span%(m)s>x</span>"),
+    ("html-close-tag", "<span>x</span %(m)s>"), ("html-table-attrs", '<table title="%(m)s"><tr id=%(m)s><td title="%(m)s">x</td><th abbr=%(m)s>y</th></tr></table>'),
+    ("html-list-attrs", '<ol start="%(m)s"><li value=%(m)s>x</li></ol><ul><li title="%(m)s">y</ul>'), ("html-heading-attr", '<h2 id="%(m)s">x</h2>'),
+    ("html-font-attr", '<font size=%(m)s color="%(m)s">x</font>'), ("html-unclosed", '<span title="%(m)s">x'), ("html-two-tags", '<b title="%(m)s"><i title="%(m)s">x</i></b>'),
+    ("ext-attr", '<ref name="%(m)s" group=%(m)s>x</ref><references group="%(m)s"/>'), ("ext-attr-gallery", '<gallery caption="%(m)s" widths=%(m)s>\nImage:x.jpg|c\n</gallery>'),
+    ("ext-attr-source", '<source lang="%(m)s">x</source><syntaxhighlight lang=%(m)s>y</syntaxhighlight>'), ("ext-attr-pages", '<pages index="%(m)s" from=%(m)s to=2 />'),
+    ("ext-attr-math", '<math title="%(m)s">x</math><poem style="%(m)s">\nx\n</poem>'), ("ext-body-ref", "a<ref>%(m)s</ref>b"), ("ext-body-named-ref", 'a<ref name="n">%(m)s</ref><ref name="n"/>'),
+    ("ext-body-nowiki", "<nowiki>%(m)s</nowiki>"), ("ext-body-pre", "<pre>%(m)s</pre>"), ("ext-body-math", "<math>%(m)s</math>"), ("ext-body-source", "<source>%(m)s</source>"),
+    ("ext-body-gallery", "<gallery>\nImage:x.jpg|%(m)s\n%(m)s\nImage:%(m)s.jpg\n</gallery>"), ("ext-body-poem", "<poem>\n%(m)s\n :%(m)s\n</poem>"),
+    ("ext-body-imagemap", "<imagemap>\nImage:x.jpg|%(m)s\nrect 0 0 1 1 [[%(m)s]]\ndefault [[A|%(m)s]]\n</imagemap>"), ("ext-body-timeline", "<timeline>\n%(m)s\n</timeline>"),
+    ("ext-body-generic", "<rot13>%(m)s</rot13><hiero>%(m)s</hiero><section begin=%(m)s />"), ("ext-tag-in-html-attr", '<span title="<nowiki>%(m)s</nowiki>">x</span>'),
+    ("ext-nested", "<ref>a <nowiki>%(m)s</nowiki> <span title=\"%(m)s\">b</span></ref>"), ("link-target", "[[%(m)s]] [[A%(m)s]]"), ("link-label", "[[A|%(m)s]]"), ("link-anchor", "[[A#%(m)s|b]]"),
+    ("link-ns", "[[Category:%(m)s]] [[:Image:%(m)s]] [[en:%(m)s]]"), ("image-caption", "[[Image:x.jpg|thumb|%(m)s]]"), ("image-options", "[[Image:x.jpg|alt=%(m)s|link=%(m)s|%(m)spx|c]]"),
+    ("image-name", "[[Image:%(m)s.jpg|thumb|c]]"), ("extlink-url", "[http://x.org/%(m)s l] http://x.org/%(m)s"), ("extlink-label", "[http://x.org %(m)s]"),
+    ("quotes", "''%(m)s'' " + "'" * 3 + "%(m)s" + "'" * 3), ("magic", "__%(m)s__ {{%(m)s}} ~~~~"),
+    ("template-arg", "{{b|%(m)s}}"), ("template-named-arg", "{{c|1=x|n=%(m)s}}"), ("template-arg-name", "{{c|%(m)s=x}}"), ("template-name", "{{%(m)s}} {{:%(m)s}}"),
+    ("template-arg-link", "{{e|%(m)s}}"), ("parameter", "{{{%(m)s}}} {{{1|%(m)s}}}"), ("template-arg-html-attr", '{{b|1=<span title="%(m)s">y</span>}}'),
+    ("template-arg-html-attr-bare", "{{b|1=<div class=%(m)s>y</div>}}"), ("template-arg-ext-attr", '{{b|1=<ref name="%(m)s">y</ref>}}'),
+    ("pf-if", "{{#if:%(m)s|%(m)s|n}}"), ("pf-ifeq", "{{#ifeq:%(m)s|%(m)s|y|n}}"), ("pf-switch", "{{#switch:%(m)s|%(m)s=1|#default=2}}"), ("pf-tag-body", "{{#tag:ref|%(m)s}}"),
+    ("pf-tag-attr", "{{#tag:ref|x|name=%(m)s}}"), ("pf-tag-html", '{{#tag:nowiki|<span title="%(m)s">x</span>}}'), ("pf-tag-name", "{{#tag:%(m)s|x}}"),
+    ("pf-string", "{{lc:%(m)s}} {{uc:%(m)s}} {{ucfirst:%(m)s}} {{urlencode:%(m)s}} {{anchorencode:%(m)s}}"), ("pf-pad", "{{padleft:x|5|%(m)s}} {{padleft:%(m)s|80|ab}}"),
+    ("pf-expr", "{{#expr:%(m)s}} {{#ifexpr:%(m)s|a|b}}"), ("pf-title", "{{#titleparts:%(m)s/x|1}} {{PAGENAME:%(m)s}} {{fullurl:%(m)s}} {{ns:%(m)s}} {{#ifexist:%(m)s|y|n}}"),
+    ("pf-time", "{{#time:%(m)s}} {{#time:Y|%(m)s}} {{formatnum:%(m)s}} {{plural:%(m)s|a|b}}"),
+    ("page-text", "{{um}}"), ("page-html-attr", "{{uma}}"), ("page-passes-arg-to-html-attr", "{{uu|%(m)s}}"), ("page-passes-arg-to-ext-attr", "{{uv|%(m)s}}"),
+    ("page-in-html-attr", '<span title="{{um}}">x</span>'), ("page-in-ext-body", "<ref>{{um}} {{uma}}</ref>"), ("page-via-tagfn", "{{#tag:ref|{{uma}}|name={{um}}}}"),
+]
+# text with real extension tags in front, so that the uniquifier's table is not empty (own-rand markers with small counters are then IN it)
+UNIQ_PREFIXES = ["", "<nowiki>''n''</nowiki> <ref>r</ref> <math>x</math> "]
+
+
+def uniq_universe(m):
+    db = dict(TEMPLATE_UNIVERSES[2])
+    db.update({"um": "p %s q" % m, "uma": '<div class=%s title="%s">y</div>' % (m, m), "uu": '<span title="{{{1}}}">{{{2|x}}}</span>',
+               "uv": '<ref name="{{{1}}}">r {{{1}}}</ref>'})
+    return db
+
+
+def uniq_family(tier):
+    """(raw, db, description): every marker variant x every position class x {empty table, table with real tags}; quick: the
+    variants rotate over the position classes for all but one representative of each group (every variant still meets >= 1/3 of the
+    classes and every class meets every group)"""
+    out = []
+    marks = uniq_markers()
+    reps = {"unknown:ref", "unknown:nowiki", "own-rand:ref-0", "own-rand:nowiki-0", "own-rand:ref-7", "unknown-counter:0", "illformed:unicode-digit-counter",
+            "truncated:no-trailing-del", "nested:in-rand", "nested:adjacent", "nested:own-in-unknown"}
+    for ci, (cname, ctx) in enumerate(UNIQ_CONTEXTS):
+        for mi, (mname, m) in enumerate(marks):
+            if tier == "quick" and mname not in reps and (ci + mi) % 3:
+                continue
+            for pi, pre in enumerate(UNIQ_PREFIXES):
+                if pi and not (mname.startswith("own-rand") or mname.startswith("nested:own") or (ci + mi) % 4 == 0):
+                    continue
+                raw = pre + ctx % {"m": m}
+                out.append((raw, uniq_universe(m) if "{{" in raw else None, "%s@%s" % (mname, cname)))
+    return out
+
+
+def uniq_case(rng, size):
+    """random: a marker with random fields at 1..3 random position classes amid grammar text"""
+    name = rng.choice(["ref", "nowiki", "math", "gallery", "pre", "poem", "pages", "source", "x", "9", ""])
+    n = rng.choice(["0", "0", "1", "2", "3", "7", "12", "99999999999", "٣", "-1", ""])
+    rand = rng.choice([UNIQ_RAND, UNIQ_RAND, "fedcba9876543210", "a", "", "ABCDEF", "0123456789abcdeg"])
+    m = uniq_marker(name, n, rand)
+    r = rng.random()
+    if r < 0.1:
+        m = m[:rng.randrange(1, len(m))]
+    elif r < 0.2:
+        m = m + uniq_marker(rng.choice(["ref", "nowiki"]), rng.choice(["0", "1", "7"]), rng.choice([UNIQ_RAND, "fedcba"]))
+    elif r < 0.3:
+        m = "\x7fUNIQ-ref-%s-%s-QINU\x7f" % (rng.choice(["0", "7"]), m)
+    parts = [rng.choice(UNIQ_PREFIXES + ["<ref>r</ref>", "<nowiki>n</nowiki>"])]
+    for _ in range(rng.randint(1, 3)):
+        parts.append(rng.choice(UNIQ_CONTEXTS)[1] % {"m": m})
+        if rng.random() < 0.5:
+            parts.append(rng.choice(["\n", " ", "\n\n"]) + inline(rng, 1, size // 4))
+    raw = rng.choice(["", "\n", " "]).join(parts)
+    return raw, (uniq_universe(m) if "{{" in raw else None)
+
+
 def html_tag(rng, name=None, kind=None):
     name = name or rng.choice(HTML_TAGS + EXT_TAGS)
     kind = kind or rng.choice(["open", "open", "close", "self", "openattr"])
@@ -639,7 +777,7 @@ def alphabet():
 
 def gen_case(rng, i, maxlen):
     """one search input: dict(raw, lang, db, kind)"""
-    kind = rng.choice(["grammar", "grammar", "grammar", "mutation", "mutation", "soup", "deep", "repeat", "attrs", "quotes", "reparse"])
+    kind = rng.choice(["grammar", "grammar", "grammar", "mutation", "mutation", "soup", "deep", "repeat", "attrs", "quotes", "reparse", "uniq"])
     lang = LANGS[i % len(LANGS)]
     db = TEMPLATE_UNIVERSES[rng.randrange(len(TEMPLATE_UNIVERSES))]
     size = rng.choice([20, 60, 150, maxlen]) if maxlen <= 400 else rng.choice([60, 400, 1500, maxlen])
@@ -658,6 +796,8 @@ def gen_case(rng, i, maxlen):
                 raw = block(rng, 0, size // 4) + "\n" + raw
         elif kind == "reparse":
             raw, db = reparse_case(rng, min(size, 100))
+        elif kind == "uniq":
+            raw, db = uniq_case(rng, min(size, 150))
         elif kind == "deep":
             raw = block(rng, 0, size // 4) + deep(rng, rng.choice([5, 20, 39, 40])) + block(rng, 0, size // 4)
         else:
